@@ -98,4 +98,16 @@ def check_config(ctx, spec, N):
         spec, O.expm_batch(spec.hat(Xst))) if any((so3_of(p) is not None and so3_of(p).kind == "euler") for p in parts_of(spec)) else np.ones(len(X), bool)
     err = np.abs(Mst - Ms @ Mt).max(axis=(1, 2))
     ctx.check_array("exp_additive", name, err[oka], 3e-9 * sc[oka] ** 2, {"x": X[oka], "s": s[oka], "t": t[oka]})
+    # ... and through the library's own product and matrix form: to_Matrix(exp(sx) * exp(tx)) = expm((s+t) x)
+    # (the product of two MRP exps may lie outside the unit ball: its matrix is still that of the composite rotation)
+    y = ca.SX.sym("y", spec.na)
+    ev_p = lib_call(ctx, "exp_product_to_matrix", name, lambda: Ev("expprod", [x, y], [ca.densify((G.algebra.elem(x).exp(G) * G.algebra.elem(y).exp(G)).to_Matrix())], probe=False))
+    if ev_p is not None:
+        (Mp,), _ = ev_p(Xs, Xt)
+        from .lie_common import mrp_product_ok
+        okp = oka & mrp_product_ok(spec, Ps[:, :, 0], Pt[:, :, 0]) & euler_ok(spec, O.expm_batch(spec.hat(Xst)))
+        if Mp.shape[1:] == (spec.md, spec.md):
+            errp = np.abs(Mp - O.expm_batch(spec.hat(Xst))).max(axis=(1, 2))
+            errp = np.where(np.isfinite(Mp).all(axis=(1, 2)), errp, np.inf)
+            ctx.check_array("matrix_of_product_of_exps_is_expm_of_sum", name, errp[okp], 3e-9 * sc[okp] ** 2, {"x": X[okp], "s": s[okp], "t": t[okp]})
     ctx.sample({"config": name, "x": X[min(len(X) - 1, 30)]})
